@@ -43,7 +43,7 @@ func init() {
 	})
 	reg(&PropSpec{ID: "C18",
 		Harnesses: []HarnessSpec{
-			{Name: "VH_C18_uuid", Replay: "native", Unwind: 400},
+			{Name: "VH_C18_uuid", Replay: "native", Unwind: 400000, StepCap: 400_000_000},
 		},
 		Bounds:  map[string]string{"quick": "300 consecutive NewV4 calls in one process; every byte of the crypto/rand stream symbolic; short reads of rand.Reader allowed by the io.Reader contract", "thorough": "same"},
 		Outside: []string{"'never repeats / unpredictable' is a probabilistic statement about the OS generator: reduced to source identity (every free bit is a distinct crypto/rand stream bit) and injectivity of the rendering", "goroutine interleavings of NewV4 (C17)"},
